@@ -54,6 +54,17 @@ func (icounter *LogInputCounterSet) CountRecordDrop(record *LogRecord) { // xx:i
 	icounter.droppedRecordsLengthTotal.unwrittenValue += uint64(record.RawLength)
 }
 
+// CountRecordDropAfterPass moves a log record from passed to dropped
+//
+// It must follow the CountRecordPass of the same record directly, with no UpdateMetrics in between, e.g. for a record
+// dropped by transforms which are run immediately after the parser that counted it
+func (icounter *LogInputCounterSet) CountRecordDropAfterPass(record *LogRecord) {
+	icounter.passedRecordsCountTotal.unwrittenValue--
+	icounter.passedRecordsLengthTotal.unwrittenValue -= uint64(record.RawLength)
+	icounter.droppedRecordsCountTotal.unwrittenValue++
+	icounter.droppedRecordsLengthTotal.unwrittenValue += uint64(record.RawLength)
+}
+
 // UpdateMetrics writes unwritten values in the counter to underlying Prometheus counters
 func (icounter *LogInputCounterSet) UpdateMetrics() {
 	icounter.logCustomCounterHost.UpdateMetrics()
